@@ -1,5 +1,7 @@
 """C09 — change notification contract and freshness of derived state."""
+import copy
 import random
+import re
 
 import pyglove as pg
 from pgverif import models as M
@@ -45,7 +47,9 @@ REQUIRED_COUNTERS = ['steps_ok', 'event_receiver_checks', 'events_expected_and_d
                      'derived_changed_steps',
                      'notified_writes_inside_elements_moved_while_suppressed',
                      'functor_arg_writes', 'suppressed_binds_of_unbound_functor_args',
-                     'derived_checks_after_functor_arg_writes']
+                     'derived_checks_after_functor_arg_writes',
+                     'secondary_api_steps_ok_that_wrote',
+                     'secondary_api_steps_ok_suppressed']
 ASSUMPTIONS = [
     'only public API is observed: _on_change/_on_bound overrides, onchange_callback, FieldUpdate fields, sym_parent, sym_items, the derived-state getters',
     'a batch never has a path that is a prefix of another, never addresses a location through a list that the same batch shortens or lengthens, and never uses Insertion on a dict',
@@ -67,7 +71,9 @@ TYPED = ('Typed', 'TypedSub', 'Inner', 'TypedNotifier', 'Required', 'ReqNotifier
          'ReqNotifier', 'TypedBound', 'DeepTyped')
 PARTIAL_OK = ('Required', 'ReqNotifier')
 EXCLUDED_OPS = ('seal',)
-MAY_CLONE_OPS = ('List.__imul__', 'List.*=', 'rebind[fn]')
+MAY_CLONE_OPS = ('List.__imul__', 'List.*=', 'rebind[fn]', 'patch_on_key',
+                 'patch_on_path', 'patch_on_value', 'patch_on_type',
+                 'patch_on_member', 'pg.patch')
 P_SCOPE = {'notify_off': 0.1, 'writable': 0.35, 'partial': 0.08}
 
 T = pg.typing
@@ -243,13 +249,20 @@ def functor_desc(rng, depth=1):
   return ['F', name, fields]
 
 
+# Legal str keys of a schemaless Dict that collide with key-path syntax: the
+# empty key renders like the root path, 'a.b' like two keys, '[0]' like an index.
+HOSTILE_KEYS = ('a.b', 'p.q', 'k[1]', '', '', '[0]')
+P_HOSTILE_ROOT_KEY = 0.2
+
+
 def dict_key(rng):
   """Mostly identifiers; a few int keys and str keys that contain key-path
-  syntax (balanced: an unbalanced bracket is rejected at construction)."""
+  syntax (balanced: an unbalanced bracket is rejected at construction) or are
+  empty."""
   r = rng.random()
-  if r < 0.05:
-    return rng.choice(['a.b', 'p.q', 'k[1]'])
-  if r < 0.1:
+  if r < 0.07:
+    return rng.choice(HOSTILE_KEYS)
+  if r < 0.12:
     return rng.randint(0, 3)
   return V.key(rng, ints=False)
 
@@ -305,6 +318,11 @@ def make_forest(rng, rec):
       d = gen_desc(rng, 3, symbolic=True)
       if d[0] in ('D', 'L', 'O', 'OP', 'F'):
         break
+    if d[0] == 'D' and rng.random() < P_HOSTILE_ROOT_KEY:
+      # a symbolic member stored under a hostile key directly below the root
+      hk = rng.choice(HOSTILE_KEYS)
+      if hk not in [kk for kk, _ in d[1]]:
+        d[1].insert(rng.randint(0, len(d[1])), [hk, gen_desc(rng, 2, symbolic=True)])
     descs.append(d)
   return descs, [rec.build(d) for d in descs]
 
@@ -428,8 +446,11 @@ def gen_rebind(g, n):
       v = g.value(parent, rel[-1])
     ups.append([rel, v])
   opts = {}
-  if g.rng.random() < 0.1:
+  r = g.rng.random()
+  if r < 0.1:
     opts['skip_notification'] = True
+  elif r < 0.16:
+    opts['skip_notification'] = False     # the explicit spelling of the default
   if g.rng.random() < 0.12:
     opts['notify_parents'] = False
   form = 'dict'
@@ -442,6 +463,14 @@ def gen_rebind(g, n):
   return {'updates': ups, 'opts': opts, 'form': form,
           'style': g.rng.choice(['raw', 'keypath', 'str']),
           'api': g.rng.choice(['rebind', 'rebind', 'sym_rebind'])}
+
+
+def explicit_notify_scopes(args, scopes):
+  """An explicit skip_notification=False inside notify_on_change(False) is left
+  open (which of the two requests wins): that combination is not generated."""
+  if args.get('opts', {}).get('skip_notification') is False:
+    return [x for x in scopes if x != 'notify_off']
+  return scopes
 
 
 OP_WEIGHT = {'rebind': 5.0, 'rebind[fn]': 1.0, 'set_accessor_writable': 0.4,
@@ -482,6 +511,7 @@ def gen_step(rng, forest, scope_p=None, among=None):
     sc = [name for name, p in (scope_p or P_SCOPE).items() if rng.random() < p]
     if among is not None and o.name == 'rebind':
       args['opts'].pop('skip_notification', None)
+    sc = explicit_notify_scopes(args, sc)
     step = {'op': o.name, 'at': [ridx, keys], 'args': args, 'scopes': sc}
     if o.name == 'rebind' and not rebind_ok(step, node):
       continue
@@ -643,6 +673,270 @@ def gen_functor_step(rng, forest):
           'scopes': scopes}
 
 
+# ------------------------------------------------ secondary mutating APIs ---
+# Public entry points other than rebind / accessors / container mutators that
+# mutate a tree in place and take (or inherit) the notification options:
+# pg.patching.patch_on_key / _path / _value / _type / _member (skip_notification
+# None / True / False, keyword or positional), pg.patch with a dict, a rebinder
+# or the URI of a registered patcher, and clone / sym_clone / pg.clone with
+# override= (mutates the NEW tree only: the original must hear nothing).
+# They are judged by the same oracle as every other step: the written locations
+# are the identity differences of the containers before and after the call.
+
+PATCH_TYPES = {'int': int, 'str': str, 'float': float, 'bool': bool,
+               'NoneType': type(None), 'Dict': pg.Dict, 'List': pg.List,
+               'Object': pg.Object, 'Symbolic': pg.Symbolic}
+PATCH_APIS = ('patch_on_key', 'patch_on_path', 'patch_on_value', 'patch_on_type',
+              'patch_on_member')
+SECONDARY_OPS = PATCH_APIS + ('pg.patch', 'clone[override=]')
+P_SECONDARY_STEP = 0.14
+
+
+def named_type(name):
+  if name in PATCH_TYPES:
+    return PATCH_TYPES[name]
+  return FUNCTORS[name] if name in FUNCTORS else getattr(M, name)
+
+
+def type_name(t):
+  for name, tt in PATCH_TYPES.items():
+    if t is tt:
+      return name
+  for name, tt in FUNCTORS.items():
+    if t is tt:
+      return name
+  return t.__name__ if getattr(M, t.__name__, None) is t else None
+
+
+def _register_patchers():
+  names = pg.patching.patcher_names()
+  if 'c09_replace' not in names:
+    @pg.patcher([('old', T.Int()), ('new', T.Int())])
+    def c09_replace(src, old, new):  # pylint: disable=unused-variable
+      del src
+      return lambda k, v, p: new if (type(v) is int and v == old) else v
+  if 'c09_set' not in names:
+    @pg.patcher([('path', T.Str()), ('v', T.Int())])
+    def c09_set(src, path, v):  # pylint: disable=unused-variable
+      del src
+      return {path: v}
+
+
+_register_patchers()
+
+
+def existing_targets(n, rng):
+  """Relative key sequences of the members stored at or below `n` (not inside
+  placeholders)."""
+  out = []
+  for rel in O.rel_targets(n, rng):
+    if through_hyper(n, rel):
+      continue
+    try:
+      parent = O.node_at(n, rel[:-1])
+      if any(type(k) is type(rel[-1]) and k == rel[-1] for k in parent.sym_keys()):
+        out.append(rel)
+    except Exception:  # pylint: disable=broad-except
+      continue
+  return out
+
+
+def _is_prim(v):
+  return v is None or type(v) in (bool, int, str) or (
+      type(v) is float and v == v)   # pylint: disable=comparison-with-itself
+
+
+def notify_opts(rng):
+  """skip_notification: left out (decided by the scope), True, or False."""
+  r = rng.random()
+  if r < 0.35:
+    return {'skip_notification': True}
+  if r < 0.55:
+    return {'skip_notification': False}
+  return {}
+
+
+def _gen_patch_on(g, n, api):
+  """A pattern drawn from a member that exists below `n` (so that the call
+  matches at least that location; whatever else it matches is patched too)."""
+  rng = g.rng
+  rels = existing_targets(n, rng)
+  if not rels:
+    return None
+  rel = rng.choice(rels)
+  parent = O.node_at(n, rel[:-1])
+  key, cur = rel[-1], parent.sym_getattr(rel[-1])
+  r = rng.random()
+  if api == 'patch_on_key':
+    ks = str(key)
+    sel = {'regex': re.escape(ks) + '$' if r < 0.7 else
+                    re.escape(ks[:1]) if r < 0.9 else '.'}
+  elif api == 'patch_on_path':
+    ps = str(pg.KeyPath(list(rel)))
+    sel = {'regex': re.escape(ps) + ('$' if r < 0.7 else '')}
+  elif api == 'patch_on_value':
+    sel = {'old': cur if _is_prim(cur) else V.small_prim(rng)}
+    if not _is_prim(sel['old']):
+      return None
+  elif api == 'patch_on_type':
+    tn = type_name(type(cur))
+    if tn is None:
+      return None
+    sel = {'type': tn}
+  else:
+    tn = type_name(type(parent)) if r < 0.85 else 'Symbolic'
+    if tn is None:
+      return None
+    sel = {'cls': tn, 'name': key}
+  v = ['missing'] if rng.random() < 0.08 else g.value(parent, key)
+  return {'sel': sel, 'v': v, 'how': 'value' if rng.random() < 0.6 else 'value_fn',
+          'opts': notify_opts(rng), 'pos': rng.random() < 0.2}
+
+
+def _run_patch_on(api):
+  def run(n, a, B):
+    sel = a['sel']
+    if 'regex' in sel:
+      head = [sel['regex']]
+    elif 'old' in sel:
+      head = [sel['old']]
+    elif 'type' in sel:
+      head = [named_type(sel['type'])]
+    else:
+      head = [named_type(sel['cls']), sel['name']]
+    if a['how'] == 'value':
+      value, value_fn = B(a['v']), None
+    else:
+      value, value_fn = None, (lambda old: B(a['v']))   # a fresh value per match
+    fn = getattr(pg.patching, api)
+    if a['pos'] and 'skip_notification' in a['opts']:
+      return fn(n, *head, value, value_fn, a['opts']['skip_notification'])
+    return fn(n, *head, value=value, value_fn=value_fn, **a['opts'])
+  return run
+
+
+for _api in PATCH_APIS:
+  O.OPS.setdefault(_api, O.Op(
+      _api, 'C09', (lambda g, n, _a=_api: _gen_patch_on(g, n, _a)),
+      _run_patch_on(_api), batch=True))
+
+
+def _plain_path(rel):
+  return all(isinstance(k, int) or (isinstance(k, str) and k.isidentifier())
+             for k in rel)
+
+
+def _gen_pg_patch(g, n):
+  """pg.patch(value, rule) with ONE rule (a list of rules is a chain of calls)."""
+  rng = g.rng
+  form = rng.choice(['dict', 'dict', 'fn', 'uri-fn', 'uri-dict'])
+  if form == 'dict':
+    a = gen_rebind(g, n)
+    if a is None:
+      return None
+    return {'form': 'dict', 'updates': a['updates'], 'style': a['style'], 'opts': {}}
+  if form == 'fn':
+    return {'form': 'fn', 'match': rng.choice(['int', 'str', 'int>3']),
+            'v': g.value(None, None), 'arity': rng.choice([2, 3]), 'opts': {}}
+  if form == 'uri-fn':
+    ints = [v for rel in existing_targets(n, rng)
+            for v in [O.node_at(n, rel)] if type(v) is int]
+    old = rng.choice(ints) if ints and rng.random() < 0.8 else rng.randint(0, 3)
+    new = rng.randint(-3, 9)
+    uri = (f'c09_replace?old={old}&new={new}' if rng.random() < 0.6
+           else f'c09_replace?{old}&{new}')
+    return {'form': 'uri-fn', 'uri': uri, 'opts': {}}
+  rels = [r for r in existing_targets(n, rng) if _plain_path(r)]
+  if not rels:
+    return None
+  rel = rng.choice(rels)
+  val = rng.randint(-3, 9)
+  return {'form': 'uri-dict', 'uri': f'c09_set?path={pg.KeyPath(list(rel))}&v={val}',
+          'updates': [[rel, ['v', val]]], 'opts': {}}
+
+
+def _run_pg_patch(n, a, B):
+  if a['form'] == 'dict':
+    return pg.patch(n, {O.path_key(r, a['style']): B(v) for r, v in a['updates']})
+  if a['form'] == 'fn':
+    new = B(a['v'])
+    def sel(v):
+      if isinstance(v, bool):
+        return False
+      if a['match'] == 'int':
+        return isinstance(v, int)
+      if a['match'] == 'str':
+        return isinstance(v, str)
+      return isinstance(v, int) and v > 3
+    if a['arity'] == 2:
+      return pg.patch(n, lambda k, v: copy.deepcopy(new) if sel(v) else v)
+    return pg.patch(n, lambda k, v, p: copy.deepcopy(new) if sel(v) else v)
+  return pg.patch(n, a['uri'])
+
+
+O.OPS.setdefault('pg.patch', O.Op('pg.patch', 'C09', _gen_pg_patch, _run_pg_patch,
+                                  batch=True))
+
+
+def _gen_clone_override(g, n):
+  rels = O.no_prefix_pairs([t for t in O.rel_targets(n, g.rng, 2)
+                            if not through_hyper(n, t)])
+  if not rels:
+    return None
+  g.rng.shuffle(rels)
+  ups = [[rel, g.value(O.node_at(n, rel[:-1]), rel[-1])]
+         for rel in rels[:g.rng.choice([1, 1, 2])]]
+  return {'deep': g.rng.random() < 0.5, 'updates': ups,
+          'via': g.rng.choice(['clone', 'sym_clone', 'pg.clone']),
+          'style': g.rng.choice(['raw', 'keypath', 'str']), 'opts': {}}
+
+
+def _run_clone_override(n, a, B):
+  override = {O.path_key(r, a['style']): B(v) for r, v in a['updates']}
+  if a['via'] == 'pg.clone':
+    return pg.clone(n, deep=a['deep'], override=override)
+  return getattr(n, a['via'])(deep=a['deep'], override=override)
+
+
+O.OPS.setdefault('clone[override=]', O.Op(
+    'clone[override=]', 'C09', _gen_clone_override, _run_clone_override,
+    effect='new', batch=True))
+
+
+def gen_secondary_step(rng, forest, scope_p=None):
+  """One call of a secondary mutating API at a uniformly chosen node."""
+  nodes = [x for x in H.all_nodes(forest) if not in_hyper(forest, x[0], x[1])]
+  if not nodes:
+    return None
+  for _ in range(10):
+    ridx, keys, node = rng.choice(nodes)
+    if isinstance(node, pg.Ref):
+      continue
+    name = rng.choice(SECONDARY_OPS)
+    by_fn = name in PATCH_APIS or name == 'pg.patch'
+    if by_fn and contains_hyper(node):
+      continue      # a rebinder would rewrite the inside of placeholders
+    g = O.GenEnv(rng, Values(forest, (ridx, keys), p_alias=0.0), forest)
+    args = O.OPS[name].gen(g, node)
+    if args is None:
+      continue
+    sc = [s for s, p in (scope_p or P_SCOPE).items() if rng.random() < p]
+    step = {'op': name, 'at': [ridx, list(keys)], 'args': args,
+            'scopes': explicit_notify_scopes(args, sc)}
+    if 'updates' in args and name == 'pg.patch' and not rebind_ok(step, node):
+      continue
+    return step
+  return None
+
+
+def as_rebind(step):
+  """pg.patch with a dict rule (given directly or made by a patcher) writes the
+  listed paths like a rebind: same model of the written locations."""
+  if step['op'] == 'pg.patch' and 'updates' in step['args']:
+    return dict(step, op='rebind')
+  return step
+
+
 def note_functor_writes(forest, post, w, suppressed, fn_written, c):
   """Collects into `fn_written` the (Info of the functor, direct?) pairs for
   every functor that holds a written location as one of its arguments (direct)
@@ -790,6 +1084,7 @@ def run_case(ctx, i):
   stale_origin = None     # mechanism of the step that left library paths stale
   p_shift = ctx.params.get('p_shift', 0.1)
   p_fn = ctx.params.get('p_functor_step', P_FUNCTOR_STEP)
+  p_sec = ctx.params.get('p_secondary_step', P_SECONDARY_STEP)
   for _ in range(n_steps):
     step, aliased, follow_up = None, False, False
     if moved and follow_left > 0 and rng.random() < (0.9 if moved_by[1] else 0.35):
@@ -806,6 +1101,8 @@ def run_case(ctx, i):
           step, D.resolve(forest, step['at'][0], step['at'][1])):
         step = None
       c['directed_functor_steps'] += step is not None
+    elif rng.random() < p_sec:
+      step = gen_secondary_step(rng, forest, scope_p)
     if step is None:
       step, aliased = gen_step(rng, forest, scope_p)
     if step is None:
@@ -838,7 +1135,13 @@ def run_case(ctx, i):
       if step['op'] == 'rebind':
         c['rebind_paths:%d' % len(step['args']['updates'])] += 1
       before = c['events_expected_and_delivered']
-      w = N.written(step, target, pre, post, c)
+      w = N.written(as_rebind(step), target, pre, post, c)
+      if step['op'] in SECONDARY_OPS:
+        c['secondary_api_steps_ok'] += 1
+        c['secondary_api_steps_ok_suppressed'] += suppressed
+        c['secondary_api_steps_ok_that_wrote'] += bool(w.entries or w.loose_changed)
+        if step['args']['opts'].get('skip_notification') is not None:
+          c['secondary_api_steps_ok_with_explicit_skip_option'] += 1
       if step['op'] == 'Functor.__delattr__' and post.get(target) is not None:
         # The location the call was asked to write: when the argument already
         # is at its default / unbound, an event for it is left open (as for a
@@ -887,7 +1190,7 @@ def run_case(ctx, i):
       c['steps_rejected'] += 1
       c['rejected:' + type(result).__name__] += 1
       try:      # a rejected batch may have written some of its locations
-        note_functor_writes(forest, post, N.written(step, target, pre, post),
+        note_functor_writes(forest, post, N.written(as_rebind(step), target, pre, post),
                             suppressed, fn_written, None)
       except Exception:  # pylint: disable=broad-except
         c['written_of_rejected_call_not_computed'] += 1
